@@ -77,6 +77,20 @@ class Body:
         if k == "goto":
             return [t["t"]]
         if k == "switch":
+            c = t["d"].get("c") if isinstance(t["d"], dict) else None
+            if c is None:
+                # one step of constant propagation: `_3 = const false; switchInt(move _3)` (cfg!(debug_assertions))
+                pl = op_place(t["d"])
+                if pl is not None and not pl.get("p"):
+                    sd = self.single_def(pl["l"])
+                    if sd and sd[2] == "assign" and sd[3]["rv"]["k"] == "use":
+                        c = sd[3]["rv"]["op"].get("c")
+            if c is not None and "int" in c:
+                # constant discriminant (e.g. `if cfg!(debug_assertions)`): only the matching edge exists
+                for v in t["vals"]:
+                    if v[0] == c["int"]:
+                        return [v[1]]
+                return [t["else"]]
             return [v[1] for v in t["vals"]] + [t["else"]]
         if k in ("drop", "assert"):
             return [t["t"]]
@@ -339,6 +353,8 @@ class Body:
                         [self.origin(o, depth + 1) for o in rv["ops"]])
             elif k == "disc":
                 base = ("disc", self.place_origin(rv["pl"], depth + 1))
+            elif k == "repeat":
+                base = ("repeat", self.origin(rv["op"], depth + 1), rv.get("n"))
             else:
                 base = ("rv", k)
         if proj:
